@@ -153,6 +153,7 @@ def run_case(w, prog, db, dbname, dialect, src=None, want_rq=True, user_names=No
         return o
     o.model = m
     o.status = "judged"
+    model_flags = set(model.RUN_FLAGS)
     frame = r.get("rqcheck", {}).get("frame")
     has_wild = frame is not None and any(isinstance(c, dict) for c in frame)
     o.obs["frame_wildcard"] = has_wild
@@ -257,6 +258,10 @@ def run_case(w, prog, db, dbname, dialect, src=None, want_rq=True, user_names=No
                         o.obs["ambiguous_ref"] = amb[0]
             except Exception:
                 pass
+            if "win_sum_all_null" in model_flags and "+" not in sym and prop == "C01":
+                # the model evaluated a windowed sum over a frame without any non-NULL value (0 by the
+                # documentation, NULL from SQL's SUM): whatever differs downstream has that root (KF-C04-2)
+                sym += "+win_sum_all_null"
             o.symptoms.append((prop, sym, d[1]))
         elif m.okeys is not None and len(set(m.okeys)) > 1 and not outer_order_by(o.sql):
             o.symptoms.append(("C03", "order_not_enforced", "model result is ordered with %d distinct keys but outermost SELECT has no ORDER BY" % len(set(m.okeys))))
